@@ -34,6 +34,7 @@ pub fn families_for(prop: &str) -> Vec<Family> {
             Family { name: "c02_perm", cfg: c02_cfg, run: c02_perm_run },
             Family { name: "c02_rand", cfg: c02_cfg, run: c02_rand_run },
             Family { name: "c02_close", cfg: c02_cfg, run: c02_close_run },
+            Family { name: "c02_stale", cfg: c02_stale_cfg, run: c02_stale_run },
         ],
         "C12" => vec![Family { name: "c12", cfg: c12_cfg, run: c12_run }],
         "C09" => vec![Family { name: "c09", cfg: c09_cfg, run: c09_run }],
@@ -819,6 +820,94 @@ fn establish(case: &mut Case, server: usize, via: &str) -> bool {
         }
     }
     false
+}
+
+fn c02_stale_cfg(rng: &mut Rng) -> CaseCfg {
+    let mut c = c02_cfg(rng);
+    // one ephemeral port: a reconnect after a reset gets the same address pair again
+    c.ephlo = 45000;
+    c.ephhi = 45000;
+    c.tcpcap = *rng.pick(&[2usize, 3, 64]);
+    c
+}
+
+/// Address-pair reuse: a connection is reset by the peer while the connector still holds its stream object; the
+/// connector connects again and (one ephemeral port) gets the same address pair.  Whatever is then done with the
+/// OLD stream object — a write, a shutdown, dropping it, dropping one half — must not touch the new connection:
+/// the new connection's reader sees exactly what was written on it, and it stays established.
+fn c02_stale_run(case: &mut Case, rng: &mut Rng) {
+    let (server, via) = (1usize, "h1".to_string());
+    if !establish(case, server, &via) {
+        return;
+    }
+    case.ctl("mark established");
+    let lat = case.cfg.maxlat_ms / case.cfg.tick_ms + 2;
+    let mut src_old = ByteSrc { tag: 0x50, pos: 0 };
+    let mut src_new = ByteSrc { tag: 0xB0, pos: 0 };
+    case.ctl(&format!("q h0 tcp_write s2 {}", src_old.take(2)));
+    for _ in 0..lat {
+        case.ctl("step");
+    }
+    // the server drops the accepted stream with the bytes unread: RST
+    case.ctl("q h1 drop s2");
+    for _ in 0..lat + 1 {
+        case.ctl("step");
+    }
+    if rng.chance(1, 2) {
+        case.ctl(&format!("q h0 tcp_write s2 {}", src_old.take(1))); // broken pipe: the entry is gone
+        case.ctl("step");
+    }
+    // reconnect: same local port, same pair
+    case.ctl("q h0 tcp_connect s4 h1:80");
+    let mut up = false;
+    for _ in 0..lat + 3 {
+        case.ctl("step");
+        case.ctl("q h1 tcp_accept s1 s5");
+        case.ctl("q h0 tcp_cpoll s4");
+        case.ctl("step");
+        let a = last_obs_of("OP h1 tcp_accept s1 s5").unwrap_or_default();
+        if a.starts_with("ok") {
+            case.ctl("q h0 tcp_cpoll s4");
+            case.ctl("step");
+            up = true;
+            break;
+        }
+    }
+    if !up {
+        return;
+    }
+    case.ctl(&format!("q h0 tcp_write s4 {}", src_new.take(2)));
+    case.ctl("step");
+    // the old stream object acts
+    match case.idx % 5 {
+        0 => case.ctl(&format!("q h0 tcp_write s2 {}", src_old.take(2))),
+        1 => case.ctl("q h0 drop s2"),
+        2 => case.ctl("q h0 tcp_shutdown s2"),
+        3 => {
+            case.ctl("q h0 tcp_split s2");
+            case.ctl("q h0 tcp_dropw s2");
+        }
+        _ => {
+            case.ctl("q h0 tcp_split s2");
+            case.ctl("q h0 tcp_dropr s2");
+            case.ctl(&format!("q h0 tcp_pwrite s2 {}", src_old.take(2)));
+        }
+    }
+    case.ctl("step");
+    case.ctl(&format!("q h0 tcp_write s4 {}", src_new.take(2)));
+    case.ctl("q h0 count");
+    for _ in 0..lat + 2 {
+        case.ctl("q h1 tcp_read s5 8");
+        case.ctl("step");
+    }
+    case.ctl(&format!("q h0 tcp_write s4 {}", src_new.take(1)));
+    case.ctl("q h0 tcp_shutdown s4");
+    for _ in 0..lat + 2 {
+        case.ctl("q h1 tcp_read s5 8");
+        case.ctl("step");
+    }
+    case.ctl("q h1 count");
+    case.ctl("mark drained");
 }
 
 struct ByteSrc {
